@@ -1,6 +1,6 @@
 """Growth beyond the listed properties (DESIGN.md section 11): specifications of further behaviour of the library,
 model-checked and replayed into the code like the property checks, but *not* registered in MANIFEST.json (no
-listed property owns their verdicts).  usage: python -m harness.growth [lifecycle] [chainqueries] [amptree] [decwarnings] [syntaxneg]"""
+listed property owns their verdicts).  usage: python -m harness.growth [lifecycle] [chainqueries] [modeview] [amptree] [decwarnings] [syntaxneg]"""
 from __future__ import annotations
 
 import io
@@ -137,6 +137,157 @@ def chainqueries(nd=3, mb=2, extra=400):
                 print("  MACHINERY: corrupted prefix accepted")
                 return 2
             print("  binding self test: corrupted prefix rejected")
+    finally:
+        tlc.cleanup(wd)
+    return rc
+
+
+# ---------------------------------------------------------------------------------------------- ModeView
+_MV_PARAMS = [[-0.108, 0.775, 0.149], ["dm", 0.5], "0.25 0.5", [1], (2.0, "x")]
+_MV_VALUES = ["toy", 2019, {"B0": "gauss"}, ["a", 1], 0.5, None, True]
+
+
+def _mode_case(args):
+    """build the real DecayMode of one abstract mode through one of three constructor forms and record its views"""
+    import copy
+    import random
+    import re
+    from decaylanguage import DecayMode
+    from decaylanguage.decay.decay import DaughtersDict
+    from . import decio
+    cid, m, seed = args
+    rng = random.Random(seed)
+    pool = [w for w in decio.label_pool() if decio.label_ok(w) and " " not in w]
+    names = dict(zip(["x", "y", "z"], rng.sample(pool, 3)))
+    back = {v: k for k, v in names.items()}
+    rank = sorted(names, key=lambda a: names[a])            # the canonical order of a final state is that of the names
+    bf = rng.choice([0.5, 1, 0.0124, 1e-7, 0.988228297, 0])
+    model = rng.choice(["PHSP", "TAUHADNU", "VSS_BMIX"])
+    pv = copy.deepcopy(rng.choice(_MV_PARAMS))
+    keys = dict(zip(["k1", "k2", "k3"], rng.sample(["study", "year", "zfit", "note", "source_id"], 3)))
+    vals = {k: copy.deepcopy(rng.choice(_MV_VALUES)) for k in keys}
+    ds = [names[d] for d in m["ds"]]
+    info = {}
+    if m["model"] != "none":
+        info["model"] = model
+    if m["params"] == "empty":
+        info["model_params"] = ""
+    elif m["params"] == "none" and cid % 2:
+        info["model_params"] = None
+    elif m["params"] == "p1":
+        info["model_params"] = pv
+    for k, _ in m["extras"]:
+        info[keys[k]] = vals[k]
+    form = cid % 3
+    if form == 0:
+        dm = DecayMode(bf, " ".join(ds), **info)
+    elif form == 1:
+        dm = DecayMode(bf, DaughtersDict(ds), **copy.deepcopy(info))
+    else:
+        dm = DecayMode.from_dict({"bf": bf, "fs": list(ds), **copy.deepcopy(info)})
+    before = (dm.bf, dm.daughters.to_list(), copy.deepcopy(dm.metadata))
+    text = dm.describe()
+    d = dm.to_dict()
+    n = len(dm)
+    st = str(dm)
+    text2 = dm.describe()
+    unchanged = (dm.bf, dm.daughters.to_list(), dm.metadata) == before and text2 == text and dm.to_dict() == d
+
+    def rbf(t):
+        return "b" if t.strip() in (f"{bf:<15.8g}".strip(), str(bf)) else "?" + t
+
+    def rnames(xs):
+        return [back.get(x, "?" + x) for x in xs]
+
+    def rval(k, shown):
+        return "v_" + k if shown == str(vals[k]) else "?" + shown
+    rkeys = {v: k for k, v in keys.items()}
+    lines = text.split("\n")
+    obs = {"describe": {"head": {"daughters": ["?unreadable"], "bf": "?"}, "model": {"model": "?", "params": "?"}, "extras": [],
+                        "has_extra_block": False, "ends_in_linebreak": text.endswith("\n")}}
+    m1 = re.fullmatch(r"Daughters: (.*) , BF: (.*)", lines[0])
+    if m1:
+        obs["describe"]["head"] = {"daughters": rnames(m1.group(1).split()), "bf": rbf(m1.group(2))}
+    m2 = re.fullmatch(r"    Decay model: (\S*) (.*)", lines[1]) if len(lines) > 1 else None
+    if m2:
+        shown = m2.group(2)
+        obs["describe"]["model"] = {"model": "M1" if m2.group(1) == model else m2.group(1),
+                                    "params": "p1" if shown == str(pv) else shown}
+    rest = lines[2:]
+    if rest and rest[0] == "    Extra info:":
+        obs["describe"]["has_extra_block"] = True
+        rest = rest[1:]
+    for ln in rest:
+        if ln == "":
+            continue
+        m3 = re.fullmatch(r"        ([^:]+): (.*)", ln)
+        k = rkeys.get(m3.group(1)) if m3 else None
+        obs["describe"]["extras"].append([k, rval(k, m3.group(2))] if k else ["?" + ln, "?"])
+    dk = list(d.keys())
+    obs["to_dict"] = {"keys": [rkeys.get(k, k) for k in dk], "bf": "b" if d.get("bf") == bf and type(d.get("bf")) is type(bf) else "?",
+                      "fs": rnames(d.get("fs", ["?missing"])), "model": "M1" if d.get("model") == model else d.get("model"),
+                      "params": "p1" if d.get("model_params") == pv and m["params"] == "p1" else d.get("model_params"),
+                      "extras": [[rkeys[k], "v_" + rkeys[k] if d[k] == vals[rkeys[k]] else "?"] for k in dk if k in rkeys]}
+    if not isinstance(obs["to_dict"]["params"], str):
+        obs["to_dict"]["params"] = "?" + repr(obs["to_dict"]["params"])
+    if not isinstance(obs["to_dict"]["model"], str):
+        obs["to_dict"]["model"] = "?" + repr(obs["to_dict"]["model"])
+    obs["len"] = n
+    m4 = re.fullmatch(r"<DecayMode: daughters=(.*), BF=(.*)>", st)
+    obs["str"] = {"daughters": rnames([] if m4 and m4.group(1) == "[]" else m4.group(1).split()) if m4 else ["?unreadable"],
+                  "bf": rbf(m4.group(2)) if m4 else "?"}
+    obs["unchanged"] = unchanged
+    return {"m": m, "rank": [[a, i + 1] for i, a in enumerate(rank)], "obs": obs, "text": text, "form": form}
+
+
+def modeview(maxds=3, maxextras=3):
+    ensure_repo_on_path()
+    from .core import pmap
+    wd = tlc.new_workdir("mv")
+    rc = 0
+    try:
+        cfg = tlc.cfg_text(constants=dict(Mode="gen", MaxDs=maxds, MaxExtras=maxextras), invariants=["ViewsAgree", "NoneIsEmpty"])
+        r = tlc.run("ModeView", cfg, workdir=wd)
+        gen = [x["v"] for x in r.by_tag("case")]
+        print(f"ModeView gen MaxDs={maxds} MaxExtras={maxextras}: {r.distinct} states, {len(gen)} modes, violated={r.violated}")
+        if r.violated:
+            rc = 1
+        r2 = tlc.run("ModeView", tlc.cfg_text(constants=dict(Mode="gen", MaxDs=maxds, MaxExtras=1), invariants=["DescribeIsCanonical"]),
+                     workdir=wd, keep_records=False)
+        print("  named deviation: describe() lists daughters by first occurrence, not in canonical order - "
+              + ("refuted DescribeIsCanonical" if "DescribeIsCanonical" in r2.violated else "NOTE: no longer refuted in the model"))
+        cases = pmap(_mode_case, [(i, m, 11 * i + 3) for i, m in enumerate(gen)])
+        tf = wd / "trace.json"
+        strip = lambda c: {k: v for k, v in c.items() if k not in ("text", "form")}          # noqa: E731
+        tf.write_text(json.dumps([strip(c) for c in cases]))
+        rj = tlc.run("ModeView", tlc.cfg_text(constants=dict(Mode="trace", MaxDs=1, MaxExtras=1)), workdir=wd,
+                     env={"TRACE_FILE": str(tf)}, timeout=3000)
+        acc = {x["tid"] for x in rj.by_tag("ACCEPT")}
+        rej = {x["tid"] for x in rj.by_tag("REJECT")}
+        if acc | rej != set(range(1, len(cases) + 1)) or acc & rej:
+            print(f"  MACHINERY: verdicts not total ({rj.stdout_path})")
+            return 2
+        print(f"modeview: {len(cases)} modes built (three constructor forms) and judged, {len(rej)} rejected")
+        fails = {}
+        for x in rj.by_tag("FAIL"):
+            fails.setdefault(x["tid"], []).append(x)
+        for t in sorted(rej)[:5]:
+            print("  DISAGREEMENT", json.dumps({"clauses": [f["clause"] for f in fails.get(t, [])], "mode": cases[t - 1]["m"],
+                                                 "form": cases[t - 1]["form"], "text": cases[t - 1]["text"],
+                                                 "diag": fails.get(t, [{}])[0].get("diag")}))
+        if rej:
+            rc = 1
+        good = next((c for i, c in enumerate(cases) if (i + 1) in acc and len(c["obs"]["describe"]["extras"]) > 1), None)
+        if good:
+            mm = json.loads(json.dumps(strip(good)))
+            mm["obs"]["describe"]["extras"].reverse()
+            tf.write_text(json.dumps([mm]))
+            rs = tlc.run("ModeView", tlc.cfg_text(constants=dict(Mode="trace", MaxDs=1, MaxExtras=1)), workdir=wd,
+                         env={"TRACE_FILE": str(tf)})
+            if not rs.by_tag("REJECT"):
+                print("  MACHINERY: reordered extra lines accepted")
+                return 2
+            print("  binding self test: reordered extra lines rejected")
     finally:
         tlc.cleanup(wd)
     return rc
@@ -578,8 +729,8 @@ def syntaxneg(maxedits=2):
 
 
 if __name__ == "__main__":
-    which = sys.argv[1:] or ["lifecycle", "chainqueries", "amptree", "decwarnings", "syntaxneg"]
+    which = sys.argv[1:] or ["lifecycle", "chainqueries", "modeview", "amptree", "decwarnings", "syntaxneg"]
     rc = 0
     for w in which:
-        rc |= {"lifecycle": lifecycle, "chainqueries": chainqueries, "amptree": amptree, "decwarnings": decwarnings, "syntaxneg": syntaxneg}[w]()
+        rc |= {"lifecycle": lifecycle, "chainqueries": chainqueries, "modeview": modeview, "amptree": amptree, "decwarnings": decwarnings, "syntaxneg": syntaxneg}[w]()
     sys.exit(rc)
